@@ -187,7 +187,10 @@ class NaiveForecaster(_OptionalForecastingHorizonMixin, _BaseWindowForecaster):
             else:
                 # if the window length is not a multiple of sp, we pad the
                 # window with nan values for easy computation of the mean
-                remainder = self.window_length_ % self.sp_
+                # use the length of the window we actually got: for in-sample
+                # forecasts near the start of the series it is shorter than
+                # window_length_
+                remainder = len(last_window) % self.sp_
                 if remainder > 0:
                     pad_width = self.sp_ - remainder
                 else:
@@ -195,9 +198,7 @@ class NaiveForecaster(_OptionalForecastingHorizonMixin, _BaseWindowForecaster):
                 last_window = np.hstack([np.full(pad_width, np.nan), last_window])
 
                 # reshape last window, one column per season
-                last_window = last_window.reshape(
-                    np.int(np.ceil(self.window_length_ / self.sp_)), self.sp_
-                )
+                last_window = last_window.reshape(-1, self.sp_)
 
                 # compute seasonal mean, averaging over rows
                 y_pred = np.nanmean(last_window, axis=0)
